@@ -15,7 +15,8 @@ REPO_MARK = os.sep + "aiortc" + os.sep
 TOOL = 4  # a free tool id (0-5; 0 debugger, 1 coverage, 2 profiler, 5 optimizer are conventional)
 
 
-class BudgetExceeded(Exception):
+class BudgetExceeded(BaseException):
+    # BaseException: neither the code under test nor a check's own 'except Exception' may swallow the verdict
     def __init__(self, steps, where):
         super().__init__(f"step budget exceeded after {steps} monitored steps at {where}")
         self.steps = steps
@@ -77,6 +78,10 @@ def alarm(seconds):
     def handler(signum, frame):
         raise CaseTimeout()
 
+    import time as _time
+
+    outer_left = signal.getitimer(signal.ITIMER_REAL)[0]  # nesting: an outer guard may be armed
+    started = _time.monotonic()
     old = signal.signal(signal.SIGALRM, handler)
     signal.setitimer(signal.ITIMER_REAL, seconds)
     try:
@@ -84,6 +89,8 @@ def alarm(seconds):
     finally:
         signal.setitimer(signal.ITIMER_REAL, 0)
         signal.signal(signal.SIGALRM, old)
+        if outer_left > 0:
+            signal.setitimer(signal.ITIMER_REAL, max(0.001, outer_left - (_time.monotonic() - started)))
 
 
 def confirm_hang(fn, limit, *args):
